@@ -69,6 +69,7 @@ type FV struct {
 	litStmts      map[*ast.FuncLit]ast.Stmt
 	rangeCallback *Term // the callback value of a synthetic call made for `range recv.M`
 	skolemCount int
+	inReturn  int               // > 0 while the operands of a return statement are evaluated
 	trigSorts map[string]string // sort of every trigger term written in a contract (key: the term's text)
 	curResults []Term // values being returned, while the ghost statements anchored at a return run
 	funcConstNames []string
@@ -185,6 +186,20 @@ func (fv *FV) fresh(prefix, sort string) string {
 	name := fmt.Sprintf("%s!%d", cleanName(prefix), fv.nfresh)
 	fv.decls = append(fv.decls, fmt.Sprintf("(declare-const %s %s)", name, sort))
 	return name
+}
+
+// symName makes a Go identifier usable inside an SMT-LIB symbol: identifiers may contain any Unicode letter (stree.Tree
+// has a field β), simple symbols may not.
+func symName(s string) string {
+	var b strings.Builder
+	for _, c := range s {
+		if c < 128 {
+			b.WriteRune(c)
+		} else {
+			fmt.Fprintf(&b, "u%04X", c)
+		}
+	}
+	return b.String()
 }
 
 func cleanName(s string) string {
@@ -359,7 +374,7 @@ func (fv *FV) structSort(named *types.Named, st *types.Struct) string {
 	var fields []string
 	for i := 0; i < st.NumFields(); i++ {
 		f := st.Field(i)
-		fields = append(fields, fmt.Sprintf("(%s_%s %s)", name, f.Name(), fv.sortOf(f.Type())))
+		fields = append(fields, fmt.Sprintf("(%s_%s %s)", name, symName(f.Name()), fv.sortOf(f.Type())))
 	}
 	if len(fields) == 0 {
 		fields = append(fields, fmt.Sprintf("(%s__unit Int)", name))
@@ -419,7 +434,7 @@ func (fv *FV) zeroOfSort(s string, t types.Type) string {
 
 func (fv *FV) fieldComp(st *types.Named, f *types.Var) (key, sort string) {
 	fs := fv.sortOf(f.Type())
-	key = "F:" + shortPkg(pkgPathOf(st.Obj())) + "." + st.Obj().Name() + "." + f.Name()
+	key = "F:" + shortPkg(pkgPathOf(st.Obj())) + "." + st.Obj().Name() + "." + symName(f.Name())
 	if fs != sInt && fs != sBool && fs != sSlice {
 		key += "$" + cleanName(fs)
 	}
